@@ -186,7 +186,28 @@ func (r Resp) OK() bool { return r.Status() == "OK" }
 func (c *Client) Cmd(cmd string) Resp {
 	c.N++
 	tag := "t" + strconv.Itoa(c.N)
-	return c.Send(tag, tag+" "+cmd+"\r\n")
+	return c.Send(tag, tag+" "+VaryCase(cmd, c.N)+"\r\n")
+}
+
+// VaryCase respells the command word (and the sub-command after UID): command names are case-insensitive (RFC 3501 §9), so
+// every third command goes out in lower case and every fifth in mixed case. Arguments are left alone.
+func VaryCase(cmd string, n int) string {
+	if n%3 != 0 && n%5 != 0 {
+		return cmd
+	}
+	words := 1
+	if len(cmd) >= 4 && strings.EqualFold(cmd[:4], "UID ") {
+		words = 2
+	}
+	f := strings.SplitN(cmd, " ", words+1)
+	for i := 0; i < words && i < len(f); i++ {
+		if n%3 == 0 {
+			f[i] = strings.ToLower(f[i])
+		} else if len(f[i]) > 1 {
+			f[i] = strings.ToUpper(f[i][:1]) + strings.ToLower(f[i][1:])
+		}
+	}
+	return strings.Join(f, " ")
 }
 
 // Send writes raw bytes and reads the response for tag.
@@ -299,6 +320,13 @@ func (w *World) LMTP(script string) string {
 	return w.LMTPCfg(w.LCfg, script)
 }
 func (w *World) LMTPCfg(cfg *config.Config, script string) string {
+	return w.lmtpWith(w.Stor, cfg, script, 10*time.Second)
+}
+
+// DefaultLMTPConfig is the delivery service's default configuration.
+func DefaultLMTPConfig() *config.Config { return config.DefaultConfig() }
+
+func (w *World) lmtpWith(stor *storage.Storage, cfg *config.Config, script string, wait time.Duration) string {
 	a, b := net.Pipe()
 	done := make(chan struct{})
 	go func() {
@@ -311,21 +339,27 @@ func (w *World) LMTPCfg(cfg *config.Config, script string) string {
 				w.mu.Unlock()
 			}
 		}()
-		lmtp.NewSession(a, w.Stor, cfg).Handle()
+		lmtp.NewSession(a, stor, cfg).Handle()
 	}()
 	go func() { io.WriteString(b, script) }()
-	b.SetReadDeadline(time.Now().Add(10 * time.Second))
+	b.SetReadDeadline(time.Now().Add(wait))
 	out, _ := io.ReadAll(b)
 	b.Close()
 	select {
 	case <-done:
-	case <-time.After(10 * time.Second):
+	case <-time.After(wait):
 	}
 	return string(out)
 }
 
 // Deliver runs one whole transaction and returns the per-recipient reply lines after the final dot.
 func (w *World) Deliver(from string, rcpts []string, msg string) (rcptReplies []string, dataReplies []string) {
+	return w.DeliverWith(w.Stor, from, rcpts, msg)
+}
+
+// DeliverWith is Deliver through a session bound to the given storage (another database manager on the same directory).
+// Concurrent writers may have to wait for SQLite's busy timeout, hence the longer patience.
+func (w *World) DeliverWith(stor *storage.Storage, from string, rcpts []string, msg string) (rcptReplies []string, dataReplies []string) {
 	var sb strings.Builder
 	sb.WriteString("LHLO client.test\r\nMAIL FROM:<" + from + ">\r\n")
 	for _, r := range rcpts {
@@ -334,7 +368,7 @@ func (w *World) Deliver(from string, rcpts []string, msg string) (rcptReplies []
 	sb.WriteString("DATA\r\n")
 	sb.WriteString(DotStuff(msg))
 	sb.WriteString(".\r\nQUIT\r\n")
-	out := w.LMTP(sb.String())
+	out := w.lmtpWith(stor, w.LCfg, sb.String(), 60*time.Second)
 	lines := strings.Split(strings.TrimRight(out, "\r\n"), "\r\n")
 	// greeting, LHLO multi-line (250- ... 250 ), MAIL, RCPT*, DATA(354), replies..., QUIT(221)
 	i := 0
